@@ -145,7 +145,10 @@ def tie(ctx):
             two = k % 3 == 2
             genes, cnr, pbam, sbam = make_sample(r, d, k, two, sparse_second=(k % 6 == 2))
             gap = r.choice(["0", "0", "0.1", "0.3"])
-            inp = {"genes": [y for y, _, _ in genes], "seed_index": k, "gap": gap}
+            # some runs without indel realignment: `_parse_read` then keeps the indel support table itself
+            extra = {"indelpost": "false"} if k % 4 == 1 else {}
+            inp = {"genes": [y for y, _, _ in genes], "seed_index": k, "gap": gap, "params": extra}
+            ptoks = [f"{a}={b}" for a, b in extra.items()]
             gene_arg = ",".join(p for _, _, p in genes)
             # ---- (1) API level: run with debug prefix, then replay each dump file --------------------------
             prefix = os.path.join(d, f"dbg{k}", f"sample{k}")
@@ -155,13 +158,13 @@ def tie(ctx):
             # ---- (2) CLI level ------------------------------------------------------------------------------
             dbg = os.path.join(d, f"archive{k}")
             argv1 = ["genotype", sbam, "-g", gene_arg, "-p", pbam, "-n", f"20:{cnr.start}-{cnr.end}", "-o", out1, "--debug", dbg, "--genome", "hg19",
-                     "--param", f"gap={gap}"]
+                     "--param", f"gap={gap}"] + ptoks
             code1, so1, se1 = run_cli(argv1)
             fam["dump_replay"]["cases"] += 1
             if not os.path.exists(dbg + ".tar.gz"):
                 fam["dump_replay"]["disagreements"].append({"why": f"no debug archive written (exit {code1}): {se1[-200:]}", "input": inp})
                 continue
-            argv2 = ["genotype", dbg + ".tar.gz", "-g", gene_arg, "-o", out2, "--param", f"gap={gap}"]
+            argv2 = ["genotype", dbg + ".tar.gz", "-g", gene_arg, "-o", out2, "--param", f"gap={gap}"] + ptoks
             code2, so2, se2 = run_cli(argv2)
             t1 = open(out1).read() if os.path.exists(out1) else None
             t2 = open(out2).read() if os.path.exists(out2) else None
@@ -172,12 +175,12 @@ def tie(ctx):
                 violations.append({"why": f"output file of the replayed archive differs at line {kk}: {l1[kk:kk + 1]} vs {l2[kk:kk + 1]}", "input": inp, "signature": "c17:output_file_differs"})
             # API-level comparison of the solution objects
             try:
-                r1 = genotype(gene_arg, sbam, pbam, output_file=None, cn_region=cnr, genome="hg19", gap=gap)
+                r1 = genotype(gene_arg, sbam, pbam, output_file=None, cn_region=cnr, genome="hg19", gap=gap, **extra)
                 e1 = None
             except AldyException as e:
                 r1, e1 = {}, str(e)[:80]
             try:
-                r2 = genotype(gene_arg, dbg + ".tar.gz", None, output_file=None, gap=gap)
+                r2 = genotype(gene_arg, dbg + ".tar.gz", None, output_file=None, gap=gap, **extra)
                 e2 = None
             except AldyException as e:
                 r2, e2 = {}, str(e)[:80]
@@ -188,8 +191,9 @@ def tie(ctx):
             stats["solutions"] += sum(len(v) for v in r1.values())
             # ---- (3) dump format vs Lean ------------------------------------------------------------------
             for y, g, ypath in genes:
-                prof = Profile.load(g, pbam, cnr)
+                prof = Profile.load(g, pbam, cnr, **extra)
                 s1 = Sample(g, prof, sbam, debug=prefix)
+                stats["without_indelpost"] += bool(extra)
                 dump_path = f"{prefix}.{g.name}.dump"
                 with gzip.open(dump_path, "rb") as f:
                     name, pprof, dump_cn, normC, mutsC, phases, fusion_counter, indel_sites = pickle.load(f)
